@@ -1,50 +1,48 @@
 #!/bin/bash
-# Re-runs every seeded change under /verif/seeded against the checks (quick tier) and rewrites
-# meta.json and RESULTS.md. usage: tools/seeded_matrix.sh [ids...]
+# Re-runs seeded changes under /verif/seeded against the checks and rewrites meta.json and
+# seeded/RESULTS.md. Each change is evaluated on a scratch worktree + scratch copy of /verif
+# (tools/scratch_eval.sh), several at a time; /repo is never touched.
+#   usage: tools/seeded_matrix.sh [-t tier] [-j jobs] [ids...]
 set -u
 cd /verif
-export GOFLAGS=-mod=mod GOPROXY=off GOSUMDB=off GOTOOLCHAIN=local
+TIER=quick; JOBS=4
+while getopts "t:j:" o; do case $o in t) TIER=$OPTARG;; j) JOBS=$OPTARG;; esac; done
+shift $((OPTIND-1))
 ids=${*:-$(ls seeded | grep -v RESULTS)}
-git -C /repo diff --quiet || { echo "/repo has uncommitted changes"; exit 2; }
-for id in $ids; do
-	d=seeded/$id
-	[ -s $d/patch.diff ] || continue
+one() {
+	id=$1; tier=$2
+	d=/verif/seeded/$id
+	[ -s $d/patch.diff ] || exit 0
 	prop=${id%%_*}
 	extra=$(cat $d/also_run 2>/dev/null)
-	git -C /repo apply $d/patch.diff || { echo "$id: patch does not apply"; continue; }
-	res=""
-	for ch in $prop $extra; do
-		s=$(date +%s)
-		out=$(./vcheck $ch quick 2>/dev/null); rc=$?
-		n=$(echo "$out" | grep -c '^VIOLATION')
-		first=$(echo "$out" | grep '^VIOLATION' | head -1 | sed 's/.*replays\///')
-		res="$res\"$ch quick\": {\"exit\": $rc, \"violation_lines\": $n, \"first\": \"$first\", \"seconds\": $(( $(date +%s) - s ))},"
-		rm -rf replays/$ch
-		echo "$id  $ch quick: exit=$rc violations=$n ($first)"
-	done
-	git -C /repo checkout -- .
-	python3 - "$d" "$prop" "{${res%,}}" <<'PY'
-import json,sys,os
-d,prop,res=sys.argv[1],sys.argv[2],json.loads(sys.argv[3])
-meta={}
+	out=$(/verif/tools/scratch_eval.sh $d/patch.diff $tier $prop $extra 2>&1)
+	echo "$out" | sed "s/^/$id  /"
+	python3 - "$d" "$prop" "$tier" "$out" <<'PY'
+import json,sys,os,re
+d,prop,tier,out=sys.argv[1:5]
 p=os.path.join(d,'meta.json')
+meta={}
 if os.path.exists(p):
-    try: meta=json.load(open(p))
+    try: meta=json.loads(open(p).read().replace('\t',' '))
     except Exception: meta={}
 notes=open(os.path.join(d,'agent_notes.txt')).read() if os.path.exists(os.path.join(d,'agent_notes.txt')) else ''
-needs=''
-low=notes.lower()
-i=low.find('what it needs')
-if i<0: i=low.find('needs to manifest')
-if i>=0: needs=' '.join(notes[i:i+700].split())
-meta.update({'property':prop,'id':os.path.basename(d),'needs_to_manifest':needs or meta.get('needs_to_manifest',''),
- 'confirmed_by_me':'demo passes on the clean tree, fails with the patch; the repository suite passes with the patch (tools/mutant_eval.sh in a scratch worktree)',
- 'checks':res})
+low=notes.lower(); needs=''
+for key in ('what it needs','needs to manifest','needs in order'):
+    i=low.find(key)
+    if i>=0: needs=' '.join(notes[i:i+700].split()); break
+checks={k:v for k,v in (meta.get('checks') or {}).items() if isinstance(v,dict)}
+for line in out.splitlines():
+    m=re.match(r'(C\d\d) (\w+) exit=(\d+) violations=(\d+) known=(\d+) seconds=(\d+) first=(.*)',line)
+    if m: checks[f'{m[1]} {m[2]}']={'exit':int(m[3]),'violation_lines':int(m[4]),'seconds':int(m[6]),'first':m[7]}
+meta.update({'property':prop,'id':os.path.basename(d),
+ 'needs_to_manifest':meta.get('needs_to_manifest') or needs,
+ 'confirmed_by_me':'demo passes on the clean tree and fails with the patch; the repository suite passes with the patch (confirmed in a scratch worktree before the change was kept)',
+ 'checks':checks})
 json.dump(meta,open(p,'w'),indent=1)
 PY
-done
-# restore evidence of the checks touched
-for ch in $(for id in $ids; do echo ${id%%_*}; cat seeded/$id/also_run 2>/dev/null; done | sort -u); do ./vcheck $ch quick >/dev/null 2>&1; done
+}
+export -f one
+printf '%s\n' $ids | xargs -P $JOBS -I{} bash -c "one {} $TIER"
 python3 - <<'PY'
 import json,glob,os
 rows=[]
@@ -53,14 +51,15 @@ for p in sorted(glob.glob('/verif/seeded/*/meta.json')):
     diff=open(os.path.join(os.path.dirname(p),'patch.diff')).read()
     files=sorted({l[6:] for l in diff.splitlines() if l.startswith('+++ b/')})
     det=[]
-    for k,v in m.get('checks',{}).items():
-        if isinstance(v,dict): det.append(f"{k}: {'CAUGHT' if v['exit']==1 else 'missed'} ({v['violation_lines']} keys, {v['seconds']} s)")
-        else: det.append(f"{k}: {v}")
+    for k,v in sorted(m.get('checks',{}).items()):
+        if isinstance(v,dict): det.append(f"{k}: {'CAUGHT' if v['exit']==1 else ('missed' if v['exit']==0 else 'error')} ({v['violation_lines']} keys, {v['seconds']} s)")
     rows.append((m.get('id',os.path.basename(os.path.dirname(p))),', '.join(files),'; '.join(det),m.get('needs_to_manifest','')[:300]))
 with open('/verif/seeded/RESULTS.md','w') as f:
-    f.write('# Seeded property-breaking changes and which checks catch them (quick tier)\n\n')
+    f.write('# Seeded property-breaking changes and which checks catch them\n\n')
     f.write('Each change was written by an independent sub-agent that saw only the property text and a scratch worktree; it compiles, passes the repository suite, and its demonstration fails with it and passes without (confirmed in a scratch worktree). Regenerate with tools/seeded_matrix.sh.\n\n')
     f.write('| id | files | result | needs |\n|---|---|---|---|\n')
     for r in rows: f.write('| '+' | '.join(x.replace('|','/').replace('\n',' ') for x in r)+' |\n')
-print(open('/verif/seeded/RESULTS.md').read()[:400])
+caught=sum(1 for r in rows if 'CAUGHT' in r[2]); print(f"{caught}/{len(rows)} caught by at least one check")
+for r in rows:
+    if 'CAUGHT' not in r[2]: print('MISSED',r[0],r[2])
 PY
